@@ -53,4 +53,5 @@ int drv_set(void);
 int drv_linq(void);
 int drv_sieve(void);
 int drv_world(void);
+int drv_pure(void);
 #endif
